@@ -76,7 +76,14 @@ def Sm(k: int, z, eta: int):
     sum_{j=1}^N (-1)^j/j^k = -eta_D(k) + (-1)^N * sum_{m>=0} (-1)^m/(N+1+m)^k
     """
     z = mp.mpmathify(z)
-    return -mp.altzeta(k) + eta * mp.lerchphi(-1, k, z + 1)
+    return -mp.altzeta(k) + eta * _lerch(k, z + 1, mp.mp.prec)
+
+
+@functools.lru_cache(maxsize=4096)
+def _lerch(k, z, prec):
+    """Phi(-1, k, z) (mpmath evaluates it by quadrature: ~0.3 s); independent of the parity, so both
+    parities and the cache-slot references of one lattice point share it.  ``prec`` keys the working precision."""
+    return mp.lerchphi(-1, k, z)
 
 
 def S11(z):
